@@ -50,6 +50,17 @@ package wallet
 //@   let dec = aesGCMDecrypt(key, enc.0, enc.1)
 //@   assert[decrypts-to-the-input] enc.2 == nil ==> dec.1 == nil && bytesval(dec.0) == bytesval(text)
 
+// The key-derivation function sees the WHOLE password (all its bytes, nothing else), the salt of the hash object and the fixed
+// cost parameters - on both sides, so two different passwords never reach the KDF as the same input.
+//@ func passwordHash.Set(h, password)
+//@   inline
+//@   requires h != nil
+//@   at-call IDKey assert[the-whole-password-reaches-the-kdf] bytesval(arg0) == strbytes(password) && arg1.arr == h.salt.arr && arg1.off == h.salt.off && len(arg1) == len(h.salt) && arg2 == 1 && arg3 == 64 * 1024 && arg4 == 4 && arg5 == 32
+//@ func passwordHash.SetFromJSON(h, password, params)
+//@   inline
+//@   requires h != nil
+//@   at-call IDKey assert[the-whole-password-reaches-the-kdf] bytesval(arg0) == strbytes(password) && arg1.arr == params.Salt.arr && arg1.off == params.Salt.off && len(arg1) == len(params.Salt) && arg2 == 1 && arg3 == 64 * 1024 && arg4 == 4 && arg5 == 32
+
 // Set (new key file) and SetFromJSON (existing key file) derive the same key from the same password and salt.
 //@ lemma kdf_parameters_agree
 //@   vars h1 *passwordHash, h2 *passwordHash, pw string, params argon2Params
